@@ -238,7 +238,7 @@ PROPS.update({
         technique=SIM_TECH + "; faults = shutdown / shutdown-and-restart requests injected into running models",
         level_text="Seeded exploration with fault injection: shutdown(), shutdow_and_restart_in/at (restart delays incl. 0) are attached to "
                    "scripted timers or to the n-th receive of 1..3 victim modules inside models with open-loop traffic, latency-only "
-                   "channels and transit gates owned by victims; a history checker derives the downtime intervals from the recorded requests "
+                   "channels and transit gates owned by victims (in a quarter of the models every module lives in a box of its own and all carry the same local name); a history checker derives the downtime intervals from the recorded requests "
                    "and checks that nothing of a victim runs inside them, that reset / start-up stages happen exactly once at the "
                    "requested instant, that messages are dropped iff a module on their way is down when they pass, and that all other "
                    "traffic and timers are untouched.",
@@ -286,14 +286,14 @@ PROPS.update({
         level_text="Seeded exploration with crash-point enumeration: models with module trees, gate chains and rings, channels with backlog, "
                    "processing elements, shut-down / restarted / panicking modules, all holding ledger tokens, are dropped before build, before "
                    "start, after a time limit, after completion, after errors and - for every sampled program without its own limit - after "
-                   "EventCount(k) for every k up to 40; the result tuple is dropped in every order; one error-free program in three is also run a second time (the returned application in a new runtime) before it is dropped; a quarter of the programs are built, run and dropped with a tracing subscriber installed that accepts every level and formats every field (log arguments are evaluated only then). Every token must have been dropped "
+                   "EventCount(k) for every k up to 40; the result tuple is dropped in every order; one error-free program in three is also run a second time (the returned application in a new runtime) before it is dropped; a quarter of the programs are built, run and dropped with a tracing subscriber installed that accepts every level and formats every field (log arguments are evaluated only then; the worker builds des with its `tracing` feature, which compiles des's own log statements in and changes nothing else). Every token must have been dropped "
                    "exactly once; afterwards a reference simulation in the same process must equal its fresh-process trace.",
         level_note="Trusted: the token ledger. Programs are sampled; stop points of a sampled program are enumerated up to 40.",
         runs={"quick": 40000, "thorough": 1700000},
         rule="generated simulations x stopping points; distinct = distinct program hash; non-trivial = some stop point left messages undelivered "
              "(in the event set or in channel queues)",
         fault_probes=["stop_point_enumerated", "dropped_before_build", "dropped_before_start", "ended_with_errors"],
-        expected_probes=["stop_point_enumerated", "dropped_before_build", "dropped_before_start", "ended_with_errors", "other_thread_waited_for_its_simulation", "dropped_after_a_second_run", "run_with_logging_enabled"],
+        expected_probes=["stop_point_enumerated", "dropped_before_build", "dropped_before_start", "ended_with_errors", "other_thread_waited_for_its_simulation", "dropped_after_a_second_run", "run_with_logging_enabled", "log_events_formatted"],
         assumptions=["sampled programs; stop points enumerated per program up to a bound"]),
 })
 
